@@ -14,14 +14,20 @@ Lemma is_pair_gmap : forall v, is_pair (g v) = is_pair v.
 Proof. destruct v; reflexivity. Qed.
 
 Lemma leaves_of_gmap : forall v, leaves_of (g v) = map g (leaves_of v).
-Proof. induction v; try reflexivity. simpl. rewrite IHv2. reflexivity. Qed.
+Proof.
+  induction v as [| | | | |a x IHx y IHy| | | | | | | |]; try reflexivity.
+  change (g (GPair a x y)) with (GPair (f a) (g x) (g y)). cbn [leaves_of map]. rewrite IHy. reflexivity.
+Qed.
 
 Lemma nodes_of_gmap : forall v, nodes_of (g v) = map g (nodes_of v).
-Proof. induction v; try reflexivity. simpl. rewrite IHv2. reflexivity. Qed.
+Proof.
+  induction v as [| | | | |a x IHx y IHy| | | | | | | |]; try reflexivity.
+  change (g (GPair a x y)) with (GPair (f a) (g x) (g y)). cbn [nodes_of map]. rewrite IHy. reflexivity.
+Qed.
 
 Lemma unpairn_gmap : forall v c, unpairn c (g v) = map g (unpairn c v).
 Proof.
-  induction v as [| | | | |a x IHx y IHy| | | | | | |]; intro c; try reflexivity.
+  induction v as [| | | | |a x IHx y IHy| | | | | | | |]; intro c; try reflexivity.
   change (g (GPair a x y)) with (GPair (f a) (g x) (g y)).
   destruct c as [|c]; [reflexivity|].
   change (unpairn (S c) (GPair (f a) (g x) (g y))) with (g x :: (if is_pair (g y) then unpairn c (g y) else [g y])).
@@ -77,20 +83,21 @@ Proof. induction v; try reflexivity. simpl. rewrite IHv2. reflexivity. Qed.
 
 Lemma vcmp_gmap : forall a b, vcmp (g a) (g b) = vcmp a b.
 Proof.
-  induction a as [| | | | |a0 x IHx y IHy| | | | | | |]; intro w; destruct w; simpl; try reflexivity; auto.
+  induction a as [| | | | |a0 x IHx y IHy| | | | | | | |]; intro w; destruct w; simpl; try reflexivity; auto.
   rewrite IHx, IHy. reflexivity.
 Qed.
 
 Lemma ty_shape_tmap : forall t u, ty_shape_eqb (tmap f t) (tmap f u) = ty_shape_eqb t u.
 Proof.
-  induction t as [a p|a l IHl r IHr|a x IHx|a l IHl r IHr|a x IHx]; intro u; destruct u; simpl; try reflexivity; auto.
+  induction t as [a p|a l IHl r IHr|a x IHx|a l IHl r IHr|a x IHx|a l IHl r IHr]; intro u; destruct u; simpl; try reflexivity; auto.
+  - rewrite IHl, IHr. reflexivity.
   - rewrite IHl, IHr. reflexivity.
   - rewrite IHl, IHr. reflexivity.
 Qed.
 
 Lemma type_of_gmap : forall v, type_of (g v) = tmap f (type_of v).
 Proof.
-  induction v as [| | | | |a x IHx y IHy|a t|a w IHw|a w IHw rt|a lt w IHw| | |]; simpl; try reflexivity.
+  induction v as [| | | | |a x IHx y IHy|a t|a w IHw|a w IHw rt|a lt w IHw| | | |]; cbn; try reflexivity.
   - rewrite IHx, IHy. reflexivity.
   - rewrite IHw. reflexivity.
   - rewrite IHw. reflexivity.
@@ -100,6 +107,11 @@ Qed.
 Lemma compare_checked_gmap : forall a b, compare_checked (g a) (g b) = compare_checked a b.
 Proof.
   intros a b. unfold compare_checked. rewrite !type_of_gmap, ty_shape_tmap, vcmp_gmap. reflexivity.
+Qed.
+
+Lemma strip_tmap : forall t, strip (f d) (tmap f t) = tmap f (strip d t).
+Proof.
+  unfold strip. induction t; simpl; congruence.
 Qed.
 
 Lemma anon_tmap : forall t, anon (f d) (tmap f t) = tmap f (anon d t).
@@ -145,7 +157,7 @@ Qed.
 Lemma to_mich_spine_gmap : forall m v,
   to_mich m (g v) = to_mich m v /\ spine_of m (g v) = spine_of m v /\ elems_of m (g v) = elems_of m v.
 Proof.
-  induction v as [| | | | |a x IHx y IHy|a t|a w IHw|a w IHw rt|a lt w IHw| |a t|a t h IHh tl IHtl];
+  induction v as [| | | | |a x IHx y IHy|a t|a w IHw|a w IHw rt|a lt w IHw| |a t|a t h IHh tl IHtl|];
     try (repeat split; reflexivity).
   - destruct IHx as [H1 _]. destruct IHy as (H2 & S2 & _).
     assert (Hm : to_mich m (g (GPair a x y)) = to_mich m (GPair a x y)).
@@ -154,9 +166,9 @@ Proof.
     split; [exact Hm|]. split; [|reflexivity].
     change (g (GPair a x y)) with (GPair (f a) (g x) (g y)).
     simpl spine_of. rewrite H1, S2. reflexivity.
-  - destruct IHw as [H _]. repeat split; simpl; rewrite H; reflexivity.
-  - destruct IHw as [H _]. repeat split; simpl; rewrite H; reflexivity.
-  - destruct IHw as [H _]. repeat split; simpl; rewrite H; reflexivity.
+  - destruct IHw as [H _]. repeat split; cbn; rewrite H; reflexivity.
+  - destruct IHw as [H _]. repeat split; cbn; rewrite H; reflexivity.
+  - destruct IHw as [H _]. repeat split; cbn; rewrite H; reflexivity.
   - destruct IHh as [H1 _]. destruct IHtl as (_ & _ & E2).
     change (g (GCons a t h tl)) with (GCons (f a) (tmap f t) (g h) (g tl)).
     assert (Hm : to_mich m (GCons (f a) (tmap f t) (g h) (g tl)) = to_mich m (GCons a t h tl)).
@@ -183,7 +195,7 @@ Qed.
 
 Lemma read_gmap : forall t n, read (tmap f t) n = option_map g (read t n).
 Proof.
-  induction t as [a p|a l IHl r IHr|a u IHu|a l IHl r IHr|a u IHu]; intro n.
+  induction t as [a p|a l IHl r IHr|a u IHu|a l IHl r IHr|a u IHu|a l IHl r IHr]; intro n.
   - apply read_prim_gmap.
   - simpl. destruct (pair_args n) as [[|x [|y [|z rest]]]|]; try reflexivity.
     + rewrite IHl, IHr. destruct (read l x) as [vx|]; [|reflexivity]. destruct (read r y) as [vy|]; reflexivity.
@@ -204,6 +216,7 @@ Proof.
     simpl option_map. cbv beta iota.
     match goal with |- match ?X with _ => _ end = _ => rewrite IHitems end.
     match goal with |- context [option_map g ?Y] => destruct Y end; reflexivity.
+  - reflexivity.
 Qed.
 
 Lemma step_gmap : forall i s,
@@ -283,6 +296,22 @@ Proof.
   - reflexivity.
   - reflexivity.
   - reflexivity.
+  - reflexivity.
+  - destruct s as [|v0 [|v1 s]]; try reflexivity; destruct v0; reflexivity.
+  - destruct s as [|x s]; [reflexivity|]. destruct s as [|l s]; [destruct x; reflexivity|].
+    destruct l as [| | | | | | | | | | | | |a p r body]; try (destruct x; reflexivity).
+    destruct p as [| a0 lt rt | | | |]; try (destruct x; reflexivity).
+    change (step (f d) (imap f IApply) (map g (x :: GLam a (TyPair a0 lt rt) r body :: s)))
+      with (if ty_shape_eqb (type_of (g x)) (tmap f lt)
+            then Ok (GLam (f d) (anon (f d) (tmap f rt)) (tmap f r)
+                       (ISeq (IPushT (strip (f d) (tmap f lt)) (to_mich LegacyOptimized (g x))) (ISeq IPair (imap f body))) :: map g s)
+            else Reject).
+    change (step d IApply (x :: GLam a (TyPair a0 lt rt) r body :: s))
+      with (if ty_shape_eqb (type_of x) lt
+            then Ok (GLam d (anon d rt) r (ISeq (IPushT (strip d lt) (to_mich LegacyOptimized x)) (ISeq IPair body)) :: s)
+            else Reject).
+    rewrite type_of_gmap, ty_shape_tmap, anon_tmap, strip_tmap, to_mich_gmap.
+    destruct (ty_shape_eqb (type_of x) lt); reflexivity.
 Qed.
 
 Lemma of_result_rmap : forall (r : result (gstack (A:=A))),
@@ -293,7 +322,7 @@ Lemma run_gmap : forall n i s,
   run (f d) n (imap f i) (map g s) = omap (map g) (run d n i s).
 Proof.
   induction n as [|n IHn]; [reflexivity|].
-  induction i as [ | | | | | | | | | | | | | | | | | | | | | | | | | x IHx y IHy | | x IHx y IHy | x IHx y IHy | x IHx y IHy | x IHx y IHy | k x IHx | x IHx | x IHx | x IHx ]; intro s;
+  induction i as [ | | | | | | | | | | | | | | | | | | | | | | | | | x IHx y IHy | | x IHx y IHy | x IHx y IHy | x IHx y IHy | x IHx y IHy | k x IHx | x IHx | x IHx | x IHx | p r x IHx | | ]; intro s;
     try (match goal with |- run _ _ (imap f ?i) _ = _ =>
            change (of_result (step (f d) (imap f i) (map g s)) = omap (map g) (of_result (step d i s)));
            rewrite step_gmap; apply of_result_rmap end).
@@ -338,7 +367,7 @@ Proof.
                | GCons _ _ h tl => match run d (S n) x (h :: s) with Done s1 => iter tl s1 | o => o end
                | _ => Fail
                end) l s).
-    revert s. induction l as [| | | | | | | | | | |a t|a t h IHh tl IHtl]; intro st; try reflexivity.
+    revert s. induction l as [| | | | | | | | | | |a t|a t h IHh tl IHtl|]; intro st; try reflexivity.
     change (g (GCons a t h tl)) with (GCons (f a) (tmap f t) (g h) (g tl)). cbv beta iota.
     change (g h :: map g st) with (map g (h :: st)).
     rewrite (IHx (h :: st)). destruct (run d (S n) x (h :: st)); simpl; try reflexivity. apply IHtl.
@@ -377,7 +406,7 @@ Proof.
                | _ => Fail
                end) l [] s).
     generalize (@nil (gval A)) as acc. revert s.
-    induction l as [| | | | | | | | | | |a t|a t h IHh tl IHtl]; intros st acc; try reflexivity.
+    induction l as [| | | | | | | | | | |a t|a t h IHh tl IHtl|]; intros st acc; try reflexivity.
     + change (g (GNil a t)) with (GNil (f a) (tmap f t)). cbv beta iota.
       destruct acc as [|r0 acc]; [reflexivity|].
       change (map g (r0 :: acc)) with (g r0 :: map g acc). cbv beta iota.
@@ -393,6 +422,30 @@ Proof.
     change (match run (f d) (S n) (imap f x) (map g s) with Done s1 => run (f d) n (imap f (ILoop x)) s1 | o => o end
             = omap (map g) (match run d (S n) x s with Done s1 => run d n (ILoop x) s1 | o => o end)).
     rewrite IHx. destruct (run d (S n) x s); simpl; try reflexivity. apply (IHn (ILoop x)).
+  - (* EXEC *)
+    destruct s as [|x s]; [reflexivity|]. destruct s as [|l s]; [destruct x; reflexivity|].
+    destruct l as [| | | | | | | | | | | | |a p r body]; try (destruct x; reflexivity).
+    change (run (f d) (S n) (imap f IExec) (map g (x :: GLam a p r body :: s)))
+      with (if ty_shape_eqb (type_of (g x)) (tmap f p) then
+              match run (f d) n (imap f body) [g x] with
+              | Done [res] => if ty_shape_eqb (type_of res) (tmap f r) then Done (res :: map g s) else Fail
+              | Done _ => Fail
+              | o => o
+              end
+            else Fail).
+    change (run d (S n) IExec (x :: GLam a p r body :: s))
+      with (if ty_shape_eqb (type_of x) p then
+              match run d n body [x] with
+              | Done [res] => if ty_shape_eqb (type_of res) r then Done (res :: s) else Fail
+              | Done _ => Fail
+              | o => o
+              end
+            else Fail).
+    rewrite type_of_gmap, ty_shape_tmap. destruct (ty_shape_eqb (type_of x) p); [|reflexivity].
+    change [g x] with (map g [x]). rewrite IHn.
+    destruct (run d n body [x]) as [[|res [|y rest]]| |]; try reflexivity.
+    simpl omap. cbv beta iota. simpl map. cbv beta iota.
+    rewrite type_of_gmap, ty_shape_tmap. destruct (ty_shape_eqb (type_of res) r); reflexivity.
 Qed.
 
 Lemma exec_gmap : forall n p s,
